@@ -586,6 +586,10 @@ func (w *World) execOne(op Op) {
 	case "sleep":
 		time.Sleep(time.Duration(op.N) * time.Millisecond)
 	case "stop":
+		if op.S != "" {
+			// an event is still being delivered while the messaging client closes
+			w.mq.DeliverDuringClose(op.S, []byte(op.P))
+		}
 		w.doStop()
 	case "lose":
 		w.doLose()
